@@ -189,7 +189,7 @@ example : (WM.init.run [.begin 3, .begin 5, .done 5]).pending.val 3 > 0 := by de
 /-! ## Oracle level (`BadgerModel/Oracle.lean`): a transaction never starts at a timestamp while a
 commit at or below it is still being applied
 
-`Reach false d n s`: all reachable states of the oracle transition system in normal mode, any
+`OReach false d n s`: all reachable states of the oracle transition system in normal mode, any
 number of transactions, any interleaving, the two `process` goroutines lagging arbitrarily. -/
 
 /-- **`readTs` sees only applied commits.** In every reachable state, a transaction whose
@@ -197,7 +197,7 @@ number of transactions, any interleaving, the two `process` goroutines lagging a
     satisfies: every commit timestamp `≤ r` that was ever handed out has had `doneCommit` called —
     which the write pipeline does only after the memtable write. (All such timestamps were handed
     out before the transaction began: later ones are `> r`, `C03_ts_unique_increasing`.) -/
-theorem C34_readTs_sees_applied {d : Bool} {n : Nat} {s : Sys} (h : Reach false d n s) (tid : Nat)
+theorem C34_readTs_sees_applied {d : Bool} {n : Nat} {s : Sys} (h : OReach false d n s) (tid : Nat)
     (x : TxnSt) (hx : s.txns[tid]? = some x)
     (hret : x.phase = .active ∨ x.phase = .closing ∨ x.phase = .closed) :
     ∀ e ∈ s.hist, e.ts ≤ x.t.readTs → e.ts ∈ s.doneCommits :=
@@ -206,7 +206,7 @@ theorem C34_readTs_sees_applied {d : Bool} {n : Nat} {s : Sys} (h : Reach false 
 /-- The guard itself: whenever `txnMark.DoneUntil() ≥ r` holds *now* (the `WaitForMark` fast path),
     every handed-out commit timestamp `≤ r` has been reported done; and `WaitForMark`'s wake-up is
     only sent with `DoneUntil() ≥ r` (`C34_waiters_released`). -/
-theorem C34_doneUntil_means_applied {d : Bool} {n : Nat} {s : Sys} (h : Reach false d n s) (r : Nat)
+theorem C34_doneUntil_means_applied {d : Bool} {n : Nat} {s : Sys} (h : OReach false d n s) (r : Nat)
     (hr : r ≤ s.o.txnMark.doneUntil) : ∀ e ∈ s.hist, e.ts ≤ r → e.ts ∈ s.doneCommits :=
   h.inv.applied_of_doneUntil r hr
 
@@ -214,7 +214,7 @@ theorem C34_doneUntil_means_applied {d : Bool} {n : Nat} {s : Sys} (h : Reach fa
     `C34_not_ahead_strict` / `C34_progress`: the marks sent to `readMark` are matched and
     non-decreasing, those sent to `txnMark` matched and strictly increasing; neither `process`
     goroutine (nor `newCommitTs`/`cleanup`) ever asserts. -/
-theorem C34_oracle_discipline {d : Bool} {n : Nat} {s : Sys} (h : Reach false d n s) :
+theorem C34_oracle_discipline {d : Bool} {n : Nat} {s : Sys} (h : OReach false d n s) :
     marksOK false (Ghost.opened n) s.rmSent ∧ marksOK true (Ghost.opened n) s.tmSent ∧
     s.o.readMark.virt = (WM.opened n).run s.rmSent ∧ s.o.txnMark.virt = (WM.opened n).run s.tmSent ∧
     s.crashed = false :=
@@ -222,7 +222,7 @@ theorem C34_oracle_discipline {d : Bool} {n : Nat} {s : Sys} (h : Reach false d 
 
 /-- `DoneUntil()` read now never exceeds what it will be once the channel is drained (the process
     goroutine only lags), for both watermarks. -/
-theorem C34_doneUntil_lags {d : Bool} {n : Nat} {s : Sys} (h : Reach false d n s) :
+theorem C34_doneUntil_lags {d : Bool} {n : Nat} {s : Sys} (h : OReach false d n s) :
     s.o.readMark.doneUntil ≤ s.o.readMark.virt.doneUntil ∧
     s.o.txnMark.doneUntil ≤ s.o.txnMark.virt.doneUntil := by
   have hI := h.inv
@@ -234,7 +234,7 @@ theorem C34_doneUntil_lags {d : Bool} {n : Nat} {s : Sys} (h : Reach false d n s
     timestamp `r` is waiting for a commit timestamp `≤ r` that was handed out and has not been
     reported done. Contrapositive: once every commit at or below its read timestamp is done and
     `process` has handled the marks, `NewTransaction` has returned. -/
-theorem C34_reader_released {d : Bool} {n : Nat} {s : Sys} (h : Reach false d n s)
+theorem C34_reader_released {d : Bool} {n : Nat} {s : Sys} (h : OReach false d n s)
     (hq : s.o.txnMark.q = []) (tid : Nat) (x : TxnSt) (hx : s.txns[tid]? = some x)
     (hp : x.phase = .parked) : ∃ e ∈ s.hist, e.ts ≤ x.t.readTs ∧ e.ts ∉ s.doneCommits :=
   SysInv.parked_has_reason h hq tid x hx hp
@@ -245,7 +245,7 @@ theorem C34_reader_released {d : Bool} {n : Nat} {s : Sys} (h : Reach false d n 
     `sendToWriteCh` (its timestamp stays consumed: `doneCommit`). If the timestamp were handed back
     (`nextTxnTs = cts` with `txnMark.Done(cts)`, seeded/C03-abort-commit-ts-reuse) the next commit would
     be considered applied before it is written and `C34_readTs_sees_applied` would fail. -/
-theorem C34_marks_below_next {d : Bool} {n : Nat} {s : Sys} (h : Reach false d n s) :
+theorem C34_marks_below_next {d : Bool} {n : Nat} {s : Sys} (h : OReach false d n s) :
     s.o.txnMark.doneUntil < s.o.nextTxnTs ∧ s.o.readMark.doneUntil < s.o.nextTxnTs := by
   have hI := h.inv
   refine ⟨?_, hI.readDoneUntil_lt⟩
